@@ -370,6 +370,50 @@ def coerce_doc(v, t):
     return v if conforms(v, t) else None
 
 
+def odd(v, t):
+    """the accepted values that are NOT the given value up to the documented coercions, listed (the same list as
+    `odd` in coq/model/Types.v): a bool where a float is expected, the serialised dict form where a path is
+    expected, dict keys that become equal once validated - anywhere inside the value"""
+    k = t["k"]
+    if k == "float":
+        return v["k"] == "bool"
+    if k == "path":
+        return v["k"] == "dict"
+    if k == "list":
+        return v["k"] == "list" and any(odd(x, t["t"]) for x in v["l"])
+    if k == "dict":
+        if v["k"] != "dict":
+            return False
+        if any(odd(a, t["kt"]) or odd(b, t["vt"]) for a, b in v["ps"]):
+            return True
+        ks = [coerce_doc(a, t["kt"]) for a, _ in v["ps"]]
+        return all(x is not None for x in ks) and len({pykey(x) for x in ks}) != len(ks)
+    return False
+
+
+def nonbool_at_bool(v, t):
+    k = t["k"]
+    if k == "bool":
+        return v["k"] != "bool"
+    if k == "list":
+        return v["k"] == "list" and any(nonbool_at_bool(x, t["t"]) for x in v["l"])
+    if k == "dict":
+        return v["k"] == "dict" and any(nonbool_at_bool(a, t["kt"]) or nonbool_at_bool(b, t["vt"]) for a, b in v["ps"])
+    return False
+
+
+def report_undocumented(c, v, t, data, prefix=""):
+    """v was accepted although it is not of type t up to the documented coercions"""
+    if odd(v, t):
+        return
+    if nonbool_at_bool(v, t):
+        c.violation("C15:bool-accepts-anything", "a value that is not a boolean, given where a bool is expected, is "
+                    "silently converted with bool() instead of being refused", data)
+    else:
+        c.violation("C15:" + prefix + "nonconforming-accepted:" + t["k"], "a value that is not of the declared type "
+                    "(up to the documented coercions and the listed oddities) was accepted", data)
+
+
 def norm(v):
     if v is None:
         return None
@@ -415,6 +459,8 @@ def oracle_initial(c, case, a, t, optional, data):
         elif expected is not None and not ast_eq(s, expected):
             c.violation("C15:default-not-coerced:" + t["k"], "an unassigned parameter does not hold what assigning "
                         "its default stores", data)
+        if d is not None and expected is None:
+            report_undocumented(c, d, t, data, "default-")
     if "initial_read" in a and not ast_eq(a["initial_read"], s):
         c.violation("C15:readback-differs", "reading the parameter does not give the stored value", data)
 
@@ -446,6 +492,8 @@ def oracle_assign(c, case, a):
         expected = v if optional else None
     else:
         expected = coerce_doc(v, t)
+    if expected is None and v["k"] != "none" and not a["raised"]:
+        report_undocumented(c, v, t, data)
     if expected is not None and writable:
         if a["raised"]:
             c.violation("C15:conforming-rejected:" + t["k"], "a conforming (or documented-coercible) value was refused", data)
@@ -544,7 +592,7 @@ def pipeline_ops(rng, nodes, classes, nt, init):
 
 
 def gen_graph(rng, idx):
-    mode = rng.choices(["submit", "resubmit", "validate", "pipeline"], [42, 14, 14, 30])[0]
+    mode = rng.choices(["submit", "resubmit", "validate", "pipeline", "retry"], [36, 12, 12, 28, 12])[0]
     nroots = {"resubmit": 2, "pipeline": rng.choice([2, 2, 3])}.get(mode, 1)
     n = rng.randint(max(2, nroots), 9)
     classes = []
@@ -579,9 +627,9 @@ def gen_graph(rng, idx):
                     nodes[i]["pre"].append(j)
     # remove one required value at one node (70 %)
     removed = None
-    if rng.random() < 0.7:
+    if rng.random() < 0.7 or mode == "retry":
         r0 = rng.randrange(nroots) if mode == "pipeline" else 0
-        pool = reachable(nodes, r0, init.get(r0, [])) if rng.random() < 0.85 else list(range(n))
+        pool = reachable(nodes, r0, init.get(r0, [])) if (rng.random() < 0.85 or mode == "retry") else list(range(n))
         if mode == "resubmit" and rng.random() < 0.5:
             both = [i for i in pool if i in reachable(nodes, 1, init.get(1, []))]
             pool = both or pool
@@ -595,6 +643,21 @@ def gen_graph(rng, idx):
         ops = [{"op": "submit", "root": 0, "init": init[0]}, {"op": "submit", "root": 1, "init": init[1]}]
     elif mode == "pipeline":
         ops = pipeline_ops(rng, nodes, classes, nroots, init)
+    elif mode == "retry":
+        # the submit is rejected (a required value is missing below the task); the script then supplies the value
+        # (75 %; else assigns something else) and submits the same task again
+        i, f = removed
+        if rng.random() < 0.75:
+            fix = {"op": "set", "node": i, "field": f,
+                   "value": {"k": "list", "l": []} if f == "lr" else v_int(rng.randrange(1, 4))}
+        else:
+            fix = {"op": "set", "node": rng.randrange(n), "field": "d" if classes[0] != classes[-1] and classes[-1] in (C_N, C_N1, C_N2) and False else "a",
+                   "value": v_int(7)}
+            if classes[fix["node"]] == C_TK:
+                fix["value"] = v_int(idx * 16 + 15)
+            if [fix["node"], fix["field"]] == removed:
+                fix["field"] = "m" if f == "a" else "a"
+        ops = [{"op": "submit", "root": 0, "init": init[0]}, fix, {"op": "submit", "root": 0, "init": init[0]}]
     else:
         roots = [rng.randrange(n) for _ in range(rng.choice([1, 2]))]
         ops = [{"op": "validate", "root": r, "init": []} for r in roots]
@@ -617,17 +680,43 @@ def history(case, answers):
             nodes[op["node"]]["fields"][op["field"]] = op["value"]
 
 
+def task_refs(nodes, v):
+    return [o for o in refs(v) if nodes[o]["c"] == C_TK]
+
+
 def oracle_graph(c, case, answers):
     visited_before = set()
     tried = set()
+    accepted, rejected = set(), set()     # tasks by the outcome of their submits so far
+    job, init_now = {}, {}                # what the previous calls left on each object
     for k, op, a, nodes, inits in history(case, answers):
+        subject = op["node"] if op["op"] == "set" else op["root"]
+        data = dict(kind="graph", case=case, answers=answers, op=k)
         if op["op"] == "set":
+            if not a["raised"]:
+                for o in task_refs(nodes, op["value"]):
+                    if o in rejected and o not in accepted:
+                        c.violation("C15:rejected-submit-leaves-job", "a task whose submit was rejected (nothing was "
+                                    "registered) is accepted where a submitted task is required", data)
+                    elif o not in accepted:
+                        c.violation("C15:unsubmitted-task-accepted", "a task that was never submitted is accepted "
+                                    "where a submitted task is required", data)
+            job[subject], init_now[subject] = a.get("job", False), a.get("init", [])
             continue
         reach = reachable(nodes, op["root"], inits)
         missing = [i for i in reach if lacks(nodes[i])]
-        data = dict(kind="graph", case=case, answers=answers, op=k, missing=missing)
+        data["missing"] = missing
         if a["raised"] and (a["delta"] != 0 or a["registered"]):
             c.violation("C15:registered-despite-raise", "submit raised but a job was registered", data)
+        if op["op"] == "submit" and a["raised"] and "job" in a:
+            # a rejected submit leaves the task as it was: no job, the init tasks it had
+            if (a["job"] and not job.get(subject, False)) or a["init"] != init_now.get(subject, []):
+                c.violation("C15:rejected-submit-leaves-job", "submit raised and nothing was registered, but the task "
+                            "keeps the job (or the init tasks) of the rejected submit: it now counts as a submitted "
+                            "task and can never be submitted again", data)
+            if not missing and subject in rejected and subject not in accepted:
+                c.violation("C15:rejected-submit-leaves-job", "a task whose submit was rejected is refused again "
+                            "after the missing value has been supplied (\"already submitted\")", data)
         if missing and not a["raised"]:
             direct = reachable(nodes, op["root"], inits, deep=False)
             outside = reachable(nodes, op["root"], inits, stop=tried)    # not on / below a task submitted earlier
@@ -651,6 +740,8 @@ def oracle_graph(c, case, answers):
             visited_before |= set(reach)      # nodes an earlier, failed validation may have marked
         if op["op"] == "submit":
             tried.add(op["root"])
+            (rejected if a["raised"] else accepted).add(op["root"])
+            job[subject], init_now[subject] = a.get("job", False), a.get("init", [])
 
 
 # ------------------------------------------------------------------ Gallina rendering
@@ -756,7 +847,8 @@ def g_graph(case, table):
         return f"OSet {gnat(op['node'])} {gnat(names[cc].index(op['field']))} ({g_value(fill(op['value']))})"
 
     ops = glist(g_op(op) for op in case["ops"])
-    ans = glist(f"({gbool(a['raised'])}, {gnat(a['delta'])})" for a in case["ans"])
+    ans = glist(f"{{| oa_raised := {gbool(a['raised'])}; oa_delta := {gnat(a['delta'])}; oa_job := {gbool(a.get('job', False))}; "
+                f"oa_init := {glist(gnat(j) for j in a.get('init', []))} |}}" for a in case["ans"])
     return f"{{| gc_heap := {glist(hs)}; gc_ops := {ops}; gc_ans := {ans} |}}"
 
 
